@@ -836,6 +836,68 @@ def tr_cmp_using(tree):
 
 
 # --------------------------------------------------------------------------------------
+# _attrs_to_init_script: which object the generated __init__ calls for a field's converter
+
+
+def tr_init_wrap(tree):
+    f = _fn(tree, "_attrs_to_init_script")
+    cands = []
+    for n in ast.walk(f):
+        if isinstance(n, ast.If) and len(n.body) == 1 and len(n.orelse) == 1 \
+                and all(isinstance(x, ast.Assign) and len(x.targets) == 1 and isinstance(x.targets[0], ast.Name)
+                        for x in (n.body[0], n.orelse[0])) \
+                and n.body[0].targets[0].id == n.orelse[0].targets[0].id == "converter":
+            cands.append(n)
+    if len(cands) != 1:
+        raise Untranslatable("_attrs_to_init_script: expected exactly one `if ...: converter = ... else: converter = ...`")
+    node = cands[0]
+    base = [None]
+
+    def fld(n):
+        """<a>.converter"""
+        if isinstance(n, ast.Attribute) and n.attr == "converter" and isinstance(n.value, ast.Name):
+            if base[0] not in (None, n.value.id):
+                raise Untranslatable("init wrap: two different attributes")
+            base[0] = n.value.id
+            return True
+        return False
+
+    def leaf(n):
+        if isinstance(n, ast.Compare) and len(n.ops) == 1 and isinstance(n.ops[0], (ast.Is, ast.IsNot)) \
+                and isinstance(n.comparators[0], ast.Constant) and n.comparators[0].value is None and fld(n.left):
+            return "(negb has)" if isinstance(n.ops[0], ast.Is) else "has"
+        if isinstance(n, ast.Call) and isinstance(n.func, ast.Name) and n.func.id == "isinstance" and len(n.args) == 2 \
+                and fld(n.args[0]) and isinstance(n.args[1], ast.Name) and n.args[1].id == "Converter":
+            return "isconv"
+        raise Untranslatable("init wrap condition " + ast.dump(n)[:100])
+
+    def value(n):
+        if fld(n):
+            return "WSame"
+        if isinstance(n, ast.Call) and isinstance(n.func, ast.Name) and n.func.id == "Converter" and len(n.args) == 1 \
+                and not n.keywords and fld(n.args[0]):
+            return "WNew"
+        raise Untranslatable("init wrap value " + ast.dump(n)[:100])
+    c = Walker().boolop(node.test, leaf)
+    out = ("Definition t_init_wrap (has isconv : bool) : wrapres :=\n  if %s then %s else %s.\n"
+           % (c, value(node.body[0].value), value(node.orelse[0].value)))
+    # Converter(x) without keywords: the defaults of takes_self / takes_field
+    cls = [n for n in tree.body if isinstance(n, ast.ClassDef) and n.name == "Converter"]
+    if len(cls) != 1:
+        raise Untranslatable("class Converter not found")
+    init = _fn(cls[0], "__init__")
+    kws = {a.arg: d for a, d in zip(init.args.kwonlyargs, init.args.kw_defaults)}
+    flags = []
+    for k in ("takes_self", "takes_field"):
+        d = kws.get(k)
+        if not (isinstance(d, ast.Constant) and isinstance(d.value, bool)):
+            raise Untranslatable("Converter.__init__: default of " + k)
+        flags.append("true" if d.value else "false")
+    out += "Definition t_converter_default_flags : bool * bool := (%s, %s).\n" % tuple(flags)
+    return out
+
+
+# --------------------------------------------------------------------------------------
 
 PRELUDE = '''(** GENERATED by harness/translate_c19.py from src/attr/{_cmp,filters,converters,_make}.py - do not edit. *)
 From Coq Require Import List Bool Arith String ZArith.
@@ -889,6 +951,10 @@ Definition witem_eqb (a b : witem) : bool :=
   end.
 Definition t_mem (x : witem) (s : list titem) : bool := existsb (fun y => witem_eqb x (ti y)) s.
 
+(** the object the generated __init__ works with: the field's converter itself, or a NEW
+    [Converter(a.converter)] around exactly that object *)
+Inductive wrapres := WNew | WSame.
+
 (** to_bool *)
 Definition tb_is_str (x : tb_in) : bool := match x with TStr _ => true | _ => false end.
 Definition tb_lower (x : tb_in) : option tb_in := match x with TStr s => Some (TStr (lower s)) | _ => None end.
@@ -906,6 +972,7 @@ FUNCTIONS = [
     ("converters.optional.optional_converter", "converters", tr_optional),
     ("converters.default_if_none.default_if_none_converter", "converters", tr_default_if_none),
     ("_make.pipe.pipe_converter", "_make", tr_pipe),
+    ("_make._attrs_to_init_script converter wrapping", "_make", tr_init_wrap),
 ]
 
 
